@@ -99,6 +99,9 @@ def run_api(case):
 
 def api_oracle(case, out):
     op, d, X, Y, _, _ = case
+    if op == "Div" and min(Y[0]) <= 0 <= max(Y[1]):
+        # a divisor whose support contains zero: the quotient is unbounded, the operation has to raise (C02 / C06 state which error)
+        return None if out[0] != "ok" else "division by a p-box whose support contains zero returns a value"
     if out[0] != "ok":
         return f"well-formed operands raise {out[2]}"
     L, R = out[1], out[2]
